@@ -44,8 +44,8 @@ theorem step_inv (s : CacheState) (op : CacheOp) (h : Inv s) : Inv (cacheStep s 
       cases hc : s.cache.lookup (Path.abs [] n) with
       | some id => exact h
       | none =>
-        have hl := loadFile_inv s (Path.abs [] n) h
-        cases hr : loadFile s (Path.abs [] n) with
+        have hl := loadFile_inv s n h
+        cases hr : loadFile s n with
         | mk s' r =>
           rw [hr] at hl
           obtain ⟨hi, _, _, hid⟩ := hl
@@ -68,6 +68,8 @@ theorem step_inv (s : CacheState) (op : CacheOp) (h : Inv s) : Inv (cacheStep s 
       exact h kv (List.mem_filter.mp hkv).1
   | setDebug b => exact h
   | setFile n c => exact h
+  | addLoader b => exact h
+  | setFileIn i n c => exact h
 
 theorem lookup_filter (l : List (Bytes × Nat)) (p : Bytes → Bool) (k : Bytes) :
     (l.filter (fun kv => p kv.1)).lookup k = if p k then l.lookup k else none := by
@@ -96,29 +98,29 @@ theorem hit_returns_cached (s : CacheState) (n : Bytes) (id : Nat) (hd : s.debug
 /-- **Cache miss**: one fetch of exactly that name; on success a *fresh*
     template is stored under it, so the next call is a hit on the same template. -/
 theorem miss_loads_once (s : CacheState) (n : Bytes) (c : Bytes) (hd : s.debug = false)
-    (hc : s.cache.lookup (Path.abs [] n) = none) (hf : s.files.lookup (Path.abs [] (Path.abs [] n)) = some c)
+    (hc : s.cache.lookup (Path.abs [] n) = none) (hf : s.files.lookup (Path.abs [] n) = some c)
     (hok : compiles c = true) :
     let r := cacheStep s (.fromCache n)
-    r.2 = .tpl s.nextId ∧ r.1.fetches = s.fetches ++ [Path.abs [] (Path.abs [] n)] ∧
+    r.2 = .tpl s.nextId ∧ r.1.fetches = s.fetches ++ [Path.abs [] n] ∧
     r.1.cache.lookup (Path.abs [] n) = some s.nextId := by
-  simp [cacheStep, hd, hc, loadFile, hf, hok, List.lookup_append]
+  simp [cacheStep, hd, hc, loadFile, findFile, hf, hok, List.lookup_append]
 
 /-- **Failed loads are not cached** (missing file or compile error): the cache is unchanged. -/
 theorem failed_load_not_cached (s : CacheState) (n : Bytes) (hd : s.debug = false)
     (hc : s.cache.lookup (Path.abs [] n) = none)
-    (hf : ∀ c, s.files.lookup (Path.abs [] (Path.abs [] n)) = some c → compiles c = false) :
+    (hf : ∀ c, (findFile s n).1 = some c → compiles c = false) :
     (cacheStep s (.fromCache n)).2 = .err ∧ (cacheStep s (.fromCache n)).1.cache = s.cache := by
   simp only [cacheStep, hd, hc, Bool.false_eq_true, if_false, loadFile]
-  cases h : s.files.lookup (Path.abs [] (Path.abs [] n)) with
+  cases h : (findFile s n).1 with
   | none => simp
   | some c => simp [hf c h]
 
 /-- **Debug bypasses the cache**: nothing is stored, every call loads. -/
 theorem debug_bypasses (s : CacheState) (n : Bytes) (hd : s.debug = true) :
     (cacheStep s (.fromCache n)).1.cache = s.cache ∧
-    (cacheStep s (.fromCache n)).1.fetches = s.fetches ++ [Path.abs [] n] := by
+    (cacheStep s (.fromCache n)).1.fetches = s.fetches ++ (findFile s n).2 := by
   simp only [cacheStep, hd, if_true, loadFile]
-  cases s.files.lookup (Path.abs [] n) with
+  cases (findFile s n).1 with
   | none => simp
   | some c => by_cases hc : compiles c = true <;> simp [hc]
 
@@ -142,16 +144,16 @@ theorem clean_all_empties (s : CacheState) : (cacheStep s .cleanAll).1.cache = [
     critical section — perform exactly one fetch and all return the same
     template. -/
 theorem concurrent_requests_load_once (s : CacheState) (n c : Bytes) (k : Nat) (hd : s.debug = false)
-    (hc : s.cache.lookup (Path.abs [] n) = none) (hf : s.files.lookup (Path.abs [] (Path.abs [] n)) = some c)
+    (hc : s.cache.lookup (Path.abs [] n) = none) (hf : s.files.lookup (Path.abs [] n) = some c)
     (hok : compiles c = true) :
     let r := cacheRun s (List.replicate (k + 1) (.fromCache n))
-    r.2 = List.replicate (k + 1) (.tpl s.nextId) ∧ r.1.fetches = s.fetches ++ [Path.abs [] (Path.abs [] n)] := by
+    r.2 = List.replicate (k + 1) (.tpl s.nextId) ∧ r.1.fetches = s.fetches ++ [Path.abs [] n] := by
   have h1 := miss_loads_once s n c hd hc hf hok
   simp only at h1
   obtain ⟨hr, hfetch, hl⟩ := h1
   simp only [List.replicate_succ, cacheRun]
   have hd' : (cacheStep s (.fromCache n)).1.debug = false := by
-    simp [cacheStep, hd, hc, loadFile, hf, hok]
+    simp [cacheStep, hd, hc, loadFile, findFile, hf, hok]
   -- all remaining calls are hits
   have hits : ∀ (t : CacheState) (j : Nat), t.debug = false → t.cache.lookup (Path.abs [] n) = some s.nextId →
       cacheRun t (List.replicate j (.fromCache n)) = (t, List.replicate j (.tpl s.nextId)) := by
@@ -161,6 +163,64 @@ theorem concurrent_requests_load_once (s : CacheState) (n c : Bytes) (k : Nat) (
     | succ j ih => simp [List.replicate_succ, cacheRun, hit_returns_cached t n _ htd htc, ih]
   rw [hits _ k hd' hl]
   simp [hr, hfetch]
+
+/-! ### several loaders (`AddLoader`), each resolving names under its own base directory -/
+
+/-- a loader with a base directory resolves a rooted name as it is and any other under its base -/
+theorem loader_abs (l : Loader) (n : Bytes) (hb : l.base ≠ []) :
+    l.abs n = if Path.isAbs n then Path.clean n else Path.join2 l.base n := by
+  simp [Loader.abs, hb]
+
+/-- the added loaders are asked in order, each for the name as *it* resolves it, up to and
+    including the first that has it; those behind it are not asked -/
+theorem tryMore_first_wins (name : Bytes) (before : List Loader) (l : Loader) (after : List Loader) (c : Bytes)
+    (hb : ∀ x ∈ before, x.files.lookup (x.abs name) = none) (hl : l.files.lookup (l.abs name) = some c) :
+    tryMore name (before ++ l :: after) = (some c, before.map (·.abs name) ++ [l.abs name]) := by
+  induction before with
+  | nil => simp [tryMore, hl]
+  | cons x xs ih =>
+    have hx := hb x (List.mem_cons_self ..)
+    have := ih (fun y hy => hb y (List.mem_cons_of_mem _ hy))
+    simp [tryMore, hx, this]
+
+/-- a name no added loader has: every one of them was asked once -/
+theorem tryMore_none (name : Bytes) (ls : List Loader) (h : ∀ x ∈ ls, x.files.lookup (x.abs name) = none) :
+    tryMore name ls = (none, ls.map (·.abs name)) := by
+  induction ls with
+  | nil => simp [tryMore]
+  | cons x xs ih =>
+    simp [tryMore, h x (List.mem_cons_self ..), ih (fun y hy => h y (List.mem_cons_of_mem _ hy))]
+
+/-- **A template that only a later loader has is found through the cache** (the repaired defect
+    D69: the first loader's resolution used to be handed to the others): with `Debug` off and the
+    name not cached, the first loader is asked for its resolution, then the added loaders in order
+    each for theirs; the template of the first that has it is returned and stored under the
+    *first loader's* resolution of the name — the key `CleanCache(n)` uses, so cleaning the name
+    forgets it and the next call loads afresh. -/
+theorem later_loader_serves (s : CacheState) (n c : Bytes) (before : List Loader) (l : Loader) (after : List Loader)
+    (hd : s.debug = false) (hc : s.cache.lookup (Path.abs [] n) = none) (h0 : s.files.lookup (Path.abs [] n) = none)
+    (hm : s.more = before ++ l :: after) (hb : ∀ x ∈ before, x.files.lookup (x.abs n) = none)
+    (hl : l.files.lookup (l.abs n) = some c) (hok : compiles c = true) :
+    let r := cacheStep s (.fromCache n)
+    r.2 = .tpl s.nextId ∧
+    r.1.fetches = s.fetches ++ Path.abs [] n :: (before.map (·.abs n) ++ [l.abs n]) ∧
+    r.1.cache.lookup (Path.abs [] n) = some s.nextId ∧
+    (cacheStep r.1 (.clean [n])).1.cache.lookup (Path.abs [] n) = none := by
+  have ht := tryMore_first_wins n before l after c hb hl
+  have hstep : cacheStep s (.fromCache n) =
+      ({ s with fetches := s.fetches ++ Path.abs [] n :: (before.map (·.abs n) ++ [l.abs n]), nextId := s.nextId + 1,
+                cache := s.cache ++ [(Path.abs [] n, s.nextId)] }, .tpl s.nextId) := by
+    simp [cacheStep, hd, hc, loadFile, findFile, h0, hm, ht, hok]
+  rw [hstep]
+  refine ⟨rfl, rfl, by simp [List.lookup_append, hc], ?_⟩
+  exact (clean_removes _ n n).1
+
+/-- a name nobody has is an error after every loader was asked once, and nothing is cached -/
+theorem missing_everywhere (s : CacheState) (n : Bytes) (hd : s.debug = false) (hc : s.cache.lookup (Path.abs [] n) = none)
+    (h0 : s.files.lookup (Path.abs [] n) = none) (hm : ∀ x ∈ s.more, x.files.lookup (x.abs n) = none) :
+    let r := cacheStep s (.fromCache n)
+    r.2 = .err ∧ r.1.cache = s.cache ∧ r.1.fetches = s.fetches ++ Path.abs [] n :: s.more.map (·.abs n) := by
+  simp [cacheStep, hd, hc, loadFile, findFile, h0, tryMore_none n s.more hm]
 
 /-- Caches of different sets are different states: an operation on one set is
     a step of that set's state only (frame property by construction of the
@@ -188,5 +248,11 @@ example :
     (cacheRun { files := [(b!"a.tpl", b!"x")] }
       [.fromCache b!"a.tpl", .fromCache b!"a.tpl", .clean [b!"a.tpl"], .fromCache b!"a.tpl", .fromCache b!"missing"]).2 =
     [.tpl 0, .tpl 0, .unit, .tpl 1, .err] := by decide
+
+/-- a file only the added loader (base directory `/b`) has: found, cached, cleaned by name, found afresh -/
+example :
+    (cacheRun {} [.addLoader b!"/b", .setFileIn 0 b!"x.tpl" (some b!"x"), .fromCache b!"x.tpl", .fromCache b!"x.tpl",
+                  .clean [b!"x.tpl"], .fromCache b!"x.tpl", .fromCache b!"y.tpl"]).2 =
+    [.unit, .unit, .tpl 0, .tpl 0, .unit, .tpl 1, .err] := by decide
 
 end Pongo.C20
